@@ -242,6 +242,8 @@ ob("C09", "O-C09.build", BL + "c09_build", "build() on a fully symbolic builder 
 for cs, ct in [("w_noep", "white to move, no EP square"), ("w_ep", "white to move, EP square given"), ("b_noep", "black to move, no EP square"), ("b_ep", "black to move, EP square given")]:
     ob("C09", "O-C09.build." + cs.replace("_", "-"), BL + "c09_build_" + cs, "build() contract (Ok exactly for states denoting an accepted position, board == that position with derived fields by definition, single wrong aspect named) restricted to: " + ct,
        ["BoardBuilder::build", "BoardBuilder::add_board", "BoardBuilder::add_castle_rights", "BoardBuilder::add_en_passant", "BoardBuilder::add_halfmove_clock", "BoardBuilder::add_fullmove_number"], timeout=3600, cut=True, flags=BF)
+# (an 8-way split c09_build_s0..s7 exists in kani/cc_builder.rs; measured 470-545 s per case, no gain over the
+#  4-way split because ~200 s per harness is symbolic execution of the 64-square builder: not registered)
 ob("C09", "O-C09.from_board", BL + "c09_from_board", "from_board(b) is the builder state denoting b's position (universally quantified square; loop-invariant VCs for the innermost loop)",
    ["BoardBuilder::from_board", "BoardBuilder::square_mut", "BoardBuilder::castle_rights_mut"], timeout=2400, cut=True, flags=BF)
 ob("C10", "O-C10.ctor.build", BL + "c10g_build_hash", "build() leaves hash == XOR of the keys of the features of the built position: from the empty board through the four writers only (feature accounting through their contracts)",
